@@ -270,7 +270,17 @@ def check_module(acc: Acc, s, module: str, case: dict) -> None:
 	acc.case(sig_of(sorted(str(v[1]) for v in before.values())), {'module': module, 'symbols': len(before), 'sample': [f'{k}: {v[1]}'[:160] for k, v in list(before.items())[:3]]}, nontrivial)
 
 
+# committed witnesses: a repaired defect (forward reference to a generic class above its TypeVar) and an open finding
+WITNESS_FORWARD_GENERIC = "from typing import Generic, TypeVar\n\n\nclass Entry:\n\tdef f(self, b: 'Box[int]') -> None:\n\t\tpass\n\n\nT = TypeVar('T')\n\n\nclass Box(Generic[T]):\n\tv: T\n\n\tdef __init__(self, v: T) -> None:\n\t\tself.v = v\n\n\tdef back(self) -> 'list[Entry]':\n\t\treturn []\n"
+WITNESS_SELF_REFERENTIAL = "from typing import Generic, TypeVar\n\nT = TypeVar('T')\n\n\nclass Cmp(Generic[T]):\n\tdef lt(self, o: T) -> bool:\n\t\treturn True\n\n\nclass Version(Cmp['Version']):\n\tpass\n"
+
+
 def classify(v: dict) -> str | None:
+	"""Open finding 'self-referential-generic-base-not-exportable': class Version(Cmp['Version']) - the attributes of the class row form a
+	cycle (Version -> Cmp<Version> -> Version ...) and the export (key ordering, attribute flattening) recurses without end.
+	Matched only on the committed witness module and on that outcome."""
+	if v['kind'] == 'export/raise' and v.get('case', {}).get('kind') == 'witness-self-referential' and 'RecursionError' in v['detail']:
+		return 'self-referential-generic-base-not-exportable'
 	return None
 
 
@@ -279,6 +289,14 @@ def shard(ctx: Ctx, acc: Acc) -> None:
 	from vf.gen.multi import make_project
 	from vf.session import Session
 	s = Session()
+	if ctx.shard == 0:
+		for name, text, kind in (('vf14_wit_fwd', WITNESS_FORWARD_GENERIC, 'witness-forward-generic'), ('vf14_wit_self', WITNESS_SELF_REFERENTIAL, 'witness-self-referential')):
+			try:
+				s.set_source(name, text)
+				s.load(name)
+				check_module(acc, s, name, {'kind': kind, 'sources': {name: text}, 'order': [name], 'module': name})
+			except Errors.Error as e:
+				acc.inconc('witness module not loadable: ' + type(e).__name__, name)
 	for j, m in enumerate(REAL_MODULES):
 		if j % ctx.nshards != ctx.shard:
 			continue
